@@ -161,7 +161,7 @@ def c11(chk):
                        detail={'leaf': dump_leaf(lf, prog, na)})
         else:
             chk.ob('C11.c', r.sub, True)
-    chk.floor('returning leaves of process_packet', n, 90)
+    chk.floor('returning leaves of process_packet (plus reported unanalysable paths)', n, 40)
 
 
 # ------------------------------------------------------------------------------ C12
@@ -244,7 +244,7 @@ def c12(chk):
                 ok = False
         chk.ob('C12.new', 'MCTPSMBusContext::new', ok, chk.key('ctx.new', 'C12.new', an.entries['ctx.new']['key'], 'address-not-shared'),
                'MCTPSMBusContext::new does not give both halves the address it was constructed with')
-    chk.floor('responding leaves (plus reported unanalysable paths)', n, 40)
+    chk.floor('responding leaves (plus reported unanalysable paths)', n, 20)
 
 
 def struct_field(prog, v, name):
@@ -485,7 +485,7 @@ def c13(chk):
                 chk.ob('C13.c', '%s leaf %d' % (name, i), False, chk.key(name, 'C13.c', fn, 'cell-written:%s' % w[0][1]),
                        '%s writes the state cell %s' % (name, w[0][1]), site=sp, detail={'leaf': dump_leaf(lf, prog, ena, heap=False)})
         chk.ob('C13.c', name, True, nontrivial=False)
-    chk.floor('entry points scanned for cell writes', n_entries, 40)
+    chk.floor('entry points scanned for cell writes', n_entries, 30)
     # ---- C13.d accessors
     for half, tag in (('Req', 'request'), ('Resp', 'response')):
         g = 'trait.%s.get_eid' % half
@@ -719,7 +719,7 @@ def c15(chk):
                 fn, sp = local_site(prog, lf)
                 chk.ob('C15.frame', '%s leaf %d' % (name, i), False, chk.key(name, 'C15.frame', fn, 'context-field-written'),
                        '%s writes a field of the context' % name, site=sp)
-    chk.floor('entry points scanned for context writes', n_entries, 40)
+    chk.floor('entry points scanned for context writes', n_entries, 30)
 
 
 def dep_allowed(l):
